@@ -439,6 +439,19 @@ def check(ctx):
                 okb = match(src, Call("Iterator::cloned", Call("[T]::iter", Through(Param(1), calls=("Deref::deref",)), nargs=1), nargs=1)) and callee_is(peel(c[3][0], ()), "HasStack::stack_mut")
     ctx.check(okb, "R01.5", "block/unfolds-with-push_many(iter().cloned())", detail, vf.at(),
               bad_detail="a block must be unfolded by push_many(self.iter().cloned()) with no reordering adaptor; extracted " + detail)
+    # a block is ONLY unfolded (one step): its effect summary is {push all elements onto exec | fatal overflow}, never "perform an element now"
+    bouts = fx.summary(vf.id, {"I": "exec"}) or []
+    okk = bool(bouts)
+    for o in bouts:
+        d, out = o.effects()
+        if o.kind == "ok":
+            okk = okk and set(d) == {"exec"} and d["exec"]["many"] and not d["exec"]["pops"] and not d["exec"]["pushes"] and not out
+        elif o.kind == "err":
+            okk = okk and o.severity == "fatal" and o.cause == "overflow" and not o.run.mutated
+        else:
+            okk = False
+    ctx.check(okk and {o.kind for o in bouts} == {"ok", "err"}, "R01.5", "block/performing-a-block-only-unfolds-it", "; ".join(o.describe() for o in bouts), vf.at(),
+              bad_detail="performing a block must do nothing but push its elements onto the exec stack (or report overflow); every element is then executed in its own step. Extracted outcomes: " + "; ".join(o.describe() + (" [" + "; ".join(o.run.notes) + "]" if o.run.notes else "") for o in bouts))
     pf = ctx.fn("<push::push_vm::program::PushProgram as push::instruction::Instruction<push::push_vm::push_state::PushState>>::perform")
     n_ok = 0
     for p in return_paths(ctx.paths(pf)):
